@@ -468,6 +468,7 @@ def write_evidence(pid, chk, tier, seed, ev, nviol, wall, known_ids):
         'trace_events': ev['trace_events'],
         'drivers': ev['drivers'],
         'known_findings_seen': known_ids,
+        'scenario_generation': ev.get('scenario_generation', []),   # scenarios TLC generated from the specification (direction 1)
     }
     doc = {'property_id': pid, 'tier': tier, 'seed': seed, 'level': chk['level'], 'coverage': cov,
            'assumptions': chk.get('assumptions', []), 'wall_s': round(wall, 1), 'violations': nviol}
